@@ -18,6 +18,7 @@ use ckb_logger::{debug, error, info, log_enabled_target, trace_target};
 use ckb_network::PeerIndex;
 use ckb_script::ChunkCommand;
 use ckb_snapshot::Snapshot;
+use ckb_store::ChainStore;
 use ckb_types::core::error::OutPointError;
 use ckb_types::{
     core::{
@@ -909,9 +910,17 @@ impl TxPoolService {
                     }
                 }
             }
-            if !readded && !tx_pool.contains_proposal_id(&detached_tx.proposal_short_id()) {
-                // the detached transaction is gone from the chain and could not return to the
-                // pool: pooled transactions built on its outputs have lost their parent
+            if !readded
+                && !tx_pool.contains_proposal_id(&detached_tx.proposal_short_id())
+                && tx_pool
+                    .snapshot()
+                    .get_transaction_info(&detached_tx.hash())
+                    .is_none()
+            {
+                // the detached transaction is gone from the chain (the new branch may have
+                // committed it with other witnesses: then its outputs are still there) and could
+                // not return to the pool: pooled transactions built on its outputs have lost
+                // their parent
                 for (entry, reject) in tx_pool.pool_map.remove_children_of(&detached_tx) {
                     self.callbacks.call_reject(tx_pool, &entry, reject);
                 }
